@@ -1,8 +1,12 @@
 #!/bin/bash
-# usage: tools/try_seed.sh <patch.diff> <PROP> [PROP...]   -- applies the patch to /repo, runs quick checks, restores
-patch=$1; shift
-git -C /repo apply "$patch" || { echo "patch does not apply"; exit 3; }
+# usage: tools/try_seed.sh <patch.diff> <PROP> [PROP ...]
+# Applies a patch to a scratch worktree of /repo HEAD (never to /repo itself), runs the quick checks of the given properties
+# against it (NAUNET_REPO=<worktree>, no evidence written) and removes the worktree.  Prints exit=<code> per property.
+patch=$(readlink -f "$1"); shift
+wt=/tmp/tryseed.$$
+git -C /repo worktree add -q --detach $wt HEAD || exit 3
+if ! git -C $wt apply "$patch" 2>/dev/null; then echo "patch does not apply to HEAD"; git -C /repo worktree remove --force $wt; exit 3; fi
 for p in "$@"; do
-  ( cd /verif && /venv/bin/python -m sa.check $p --tier quick --no-evidence 2>&1 | grep -v "^   " | head -${LINES_MAX:-12} ; echo "exit=${PIPESTATUS[0]}" )
+  (cd /verif && NAUNET_REPO=$wt /venv/bin/python -m sa.check $p --tier quick --no-evidence); echo "exit=$?"
 done
-git -C /repo checkout -- . 
+git -C /repo worktree remove --force $wt
